@@ -31,6 +31,10 @@ def make(cls, target, comp, rnd):
         blob = bytes([rnd.randrange(256)]) * n
         text = rnd.choice("aé€") * n
     if cls == "bytes":
+        if rnd.random() < 0.15:
+            import bz2, lzma, zlib
+            # bytes that are themselves a valid stream of some codec (an already-compressed blob): they are just bytes
+            return rnd.choice([zlib.compress, bz2.compress, lzma.compress])(blob or b"x")
         return blob
     if cls == "str":
         return text
@@ -45,6 +49,8 @@ def make(cls, target, comp, rnd):
     if cls == "none":
         return None
     if cls == "float":
+        if rnd.random() < 0.3:
+            return rnd.choice([1.0, 0.0, -0.0, -1.0])      # equal to True / False / an int, but a float
         return rnd.choice([0.0, -1.5, 1e300, 2.0 ** -40, float("inf")])
     if cls == "list":
         return [blob, text, n]
